@@ -5,6 +5,7 @@ Theorems over the LTS `ZstdVerif.Pool.step` (Model/Pool.lean): every statement q
 -/
 import ZstdVerif.Lemmas.Pool
 import ZstdVerif.Lemmas.PoolLive
+import ZstdVerif.Lemmas.PoolTry
 
 namespace ZstdVerif.Props.C12
 open ZstdVerif.Pool
@@ -134,6 +135,21 @@ theorem tryAdd_refusal_clean (s : St) (j : Job) (k : Nat) :
   refine ⟨fun _ => trivial, fun h => ?_, fun h => ?_⟩
   · unfold addInternal signalPop; simp [h]; split <;> simp
   · unfold addInternal; simp [h]
+
+/-- **a successful tryAdd is an accepted job** (all schedules): in every reachable state, each post that `POOL_tryAdd` answered
+with 1 has really been enqueued - also when it raced with `POOL_free` (a pool that is shutting down answers 0). -/
+theorem tryAdd_success_accepted {body t qs progs s} (hr : Reachable body (init t qs progs) s) (j : Job) :
+    s.tryOk.count j ≤ s.accepted.count j := by
+  induction hr with
+  | refl => simp [init]
+  | step _ hs ih => exact tryStep_count (tryStep_step hs) j ih
+
+/-- ... hence runs: once the pool is quiescent, every post answered with 1 has been executed to completion. -/
+theorem tryAdd_success_runs {body t qs progs s} (hr : Reachable body (init t qs progs) s) (j : Job)
+    (hq : s.q = []) (hb : s.busy = 0) : s.tryOk.count j ≤ s.finished.count j := by
+  have h := (exactly_once hr j).2.2 hq hb
+  have h2 := tryAdd_success_accepted hr j
+  omega
 
 /-- **resize never strands or loses queued jobs**: queue, accepted, started, finished are unchanged, and the
 number of worker threads never shrinks. -/
